@@ -458,7 +458,11 @@ def fill_loops(env, T, b, ctx):
             continue
         (ib, it), (pb, pt), (rb, rt_, n_term) = inner[0], pushes[0], rng[0]
         buf = unref(ev.operand(ctx, pt["args"][0]))
-        if not (buf[0] == "ret" and buf[1] in ("std::vec::Vec::new", "std::vec::Vec::with_capacity")):
+        # the buffer starts empty: `Vec::new()` / `Vec::with_capacity(..)`, and is otherwise only pushed to
+        opts = buf[1] if buf[0] == "phi" else (buf,)
+        fresh = [o for o in opts if o[0] == "ret" and o[1] in ("std::vec::Vec::new", "std::vec::Vec::with_capacity")]
+        rest = [o for o in opts if o not in fresh]
+        if len(fresh) != 1 or any(not (o[0] == "call" and o[1] == "Vec::pushed") for o in rest):
             continue
         ires = ev.operand(ctx, {"k": "copy", "place": it["dest"]})
         if unref(ev.operand(ctx, pt["args"][1])) != unref(ev.payload(ctx, ires)):
